@@ -14,18 +14,34 @@ import (
 	"package-operator.run/internal/packages/zzverif/world"
 )
 
-func system(n int, mask uint, classes []string, pauses int) *world.System {
+func system(n int, mask uint, classes []string, pauses int, drifts int) *world.System {
 	cfg := osw.B1(n, mask)
 	return &world.System{
-		Name: fmt.Sprintf("B1 phases=%d delegated=%03b pauses=%d", n, mask, pauses),
+		Name: fmt.Sprintf("B1 phases=%d delegated=%03b pauses=%d drifts=%d", n, mask, pauses, drifts),
 		Init: func() *world.World {
 			w := osw.NewWorld()
 			w.MustCreate(world.NewObjectSet("r1", osw.PhaseSpecs(cfg, 1), world.StdProbes()))
 			w.Budget["user-pause"] = pauses
+			w.Budget["drift"] = drifts
 			return w
 		},
 		Events: func(w *world.World) []world.Event {
 			evs := append(osw.ReconcileEvents(w), osw.WorkloadEvents(w, classes)...)
+			if w.Budget["drift"] > 0 {
+				// a third party edits the spec of a managed object (generation bump); the workload
+				// controller may catch up with it before PKO reverts it, which bumps the generation again
+				for _, k := range w.S.SortedKeys() {
+					if k.Group != world.TestGroup {
+						continue
+					}
+					k := k
+					evs = append(evs, world.Event{Name: fmt.Sprintf("third-party:drift:%s/%s", k.Kind, k.Name), Apply: func(w *world.World) *world.Pass {
+						w.Budget["drift"]--
+						_ = w.Edit(k, func(c map[string]any) { c["spec"].(map[string]any)["x"] = int64(9) })
+						return nil
+					}})
+				}
+			}
 			return append(evs, osw.PauseEvents(w, "r1")...)
 		},
 		Check: Check,
@@ -156,6 +172,7 @@ type shape struct {
 	mask    uint
 	classes []string
 	pauses  int
+	drifts  int
 }
 
 var (
@@ -166,35 +183,40 @@ var (
 func shapes(quick bool) []shape {
 	if quick {
 		return []shape{
-			{2, 0, osw.StatusNames, 0}, {2, 1, three, 0}, {2, 2, three, 0}, {2, 3, two, 0},
-			{3, 0, three, 0}, {3, 0b010, two, 0}, {2, 1, two, 2},
+			{n: 2, mask: 0, classes: osw.StatusNames, pauses: 0}, {n: 2, mask: 1, classes: three, pauses: 0}, {n: 2, mask: 2, classes: three, pauses: 0}, {n: 2, mask: 3, classes: two, pauses: 0},
+			{n: 3, mask: 0, classes: three, pauses: 0}, {n: 3, mask: 0b010, classes: two, pauses: 0}, {n: 2, mask: 1, classes: two, pauses: 2},
+			{n: 2, mask: 0, classes: two, drifts: 1}, {n: 2, mask: 1, classes: []string{"ready"}, drifts: 1},
 		}
 	}
 	var out []shape
 	for m := uint(0); m < 4; m++ {
-		out = append(out, shape{2, m, three, 0}, shape{2, m, two, 2})
+		out = append(out, shape{n: 2, mask: m, classes: three, pauses: 0}, shape{n: 2, mask: m, classes: two, pauses: 2})
 	}
-	out = append(out, shape{2, 0, osw.StatusNames, 0}, shape{2, 1, osw.StatusNames, 0})
+	out = append(out, shape{n: 2, mask: 0, classes: osw.StatusNames, pauses: 0}, shape{n: 2, mask: 1, classes: osw.StatusNames, pauses: 0})
 	for m := uint(0); m < 8; m++ {
-		out = append(out, shape{3, m, two, 0})
+		out = append(out, shape{n: 3, mask: m, classes: two, pauses: 0})
 	}
-	out = append(out, shape{3, 0, three, 0}, shape{3, 0b001, three, 0}, shape{3, 0b100, three, 0}, shape{3, 0b001, two, 2})
+	out = append(out, shape{n: 3, mask: 0, classes: three, pauses: 0}, shape{n: 3, mask: 0b001, classes: three, pauses: 0}, shape{n: 3, mask: 0b100, classes: three, pauses: 0}, shape{n: 3, mask: 0b001, classes: two, pauses: 2})
+	for m := uint(0); m < 4; m++ {
+		out = append(out, shape{n: 2, mask: m, classes: two, drifts: 1})
+	}
+	out = append(out, shape{n: 2, mask: 0, classes: three, drifts: 2}, shape{n: 3, mask: 0, classes: []string{"ready"}, drifts: 1})
 	return out
 }
 
 func run(o checks.Opts) *report.Report {
 	rep := report.New("C03", "bfs")
-	rep.Rule = "explicit-state BFS to closure: events = reconcile(ObjectSet), reconcile(each ObjectSetPhase), workload controller setting any existing object's status to a class of the system's alphabet (none/ready/not-ready/stale-observedGeneration); one system per phase layout (2-3 phases, local/delegated mask) and status alphabet; monitor on every request of every ObjectSet pass"
+	rep.Rule = "explicit-state BFS to closure: events = reconcile(ObjectSet), reconcile(each ObjectSetPhase), workload controller setting any existing object's status to a class of the system's alphabet (none/ready/not-ready/stale-observedGeneration), a third party editing a managed object's spec (so that PKO's own revert bumps the generation under a status that was current); one system per phase layout (2-3 phases, local/delegated mask) and status alphabet; monitor on every request of every ObjectSet pass"
 	ss := shapes(o.Quick())
 	rep.Bounds["systems"] = len(ss)
 	for i, s := range ss {
 		if o.Shards > 1 && i%o.Shards != o.Shard {
 			continue
 		}
-		sys := system(s.n, s.mask, s.classes, s.pauses)
+		sys := system(s.n, s.mask, s.classes, s.pauses, s.drifts)
 		sys.Name += fmt.Sprintf(" statuses=%d", len(s.classes))
 		sys.MaxStates = 400000
-		osw.RunBFS(rep, sys, map[string]any{"n": s.n, "mask": s.mask, "classes": s.classes, "pauses": s.pauses})
+		osw.RunBFS(rep, sys, map[string]any{"n": s.n, "mask": s.mask, "classes": s.classes, "pauses": s.pauses, "drifts": s.drifts})
 		rep.Samples = append(rep.Samples, map[string]any{"system": sys.Name, "example_path": []string{"reconcile:os:r1", "workload:Widget/a=ready", "reconcile:os:r1", "workload:Widget/a=notready", "reconcile:os:r1"}})
 	}
 	return rep
@@ -210,7 +232,8 @@ func replay(v report.Violation) string {
 		}
 	}
 	pauses, _ := v.Params["pauses"].(float64)
-	return osw.ReplayBFS(system(int(n), uint(mask), classes, int(pauses)), v)
+	drifts, _ := v.Params["drifts"].(float64)
+	return osw.ReplayBFS(system(int(n), uint(mask), classes, int(pauses), int(drifts)), v)
 }
 
 func init() {
@@ -223,9 +246,9 @@ func init() {
 		},
 		Subs: []*checks.Sub{{Name: "bfs", Shards: func(t string) int {
 			if t == "thorough" {
-				return 22
+				return 28
 			}
-			return 7
+			return 9
 		}, Run: run, Replay: replay, Parallel: true}},
 	})
 }
